@@ -3,7 +3,6 @@
 //! unreachable parts, mutations that break them, and the lock-step walk spec <-> automaton.
 
 use crate::atoms::{show_char, Atoms, MAX};
-use crate::ivl::Universe;
 use crate::runner::catch;
 use crate::tape::Tape;
 use aws_smt_strings::automata::{Automaton, AutomatonBuilder};
@@ -157,24 +156,38 @@ pub struct StateFacts {
 }
 
 pub fn state_facts(v: &StateView) -> StateFacts {
-    let ivs: Vec<(u32, u32)> = v.trans.iter().map(|t| t.0).collect();
-    let u = Universe::from_intervals(&ivs);
-    let mut f = StateFacts::default();
-    let mut covered = 0u128;
-    for seg in 0..u.len() {
-        let c = u.segs[seg].0;
-        let targets: Vec<u32> = v.trans.iter().filter(|((a, b), _)| *a <= c && c <= *b).map(|t| t.1).collect();
-        if targets.len() >= 2 {
-            f.overlap = true;
-            if targets.iter().any(|&x| x != targets[0]) {
-                f.conflict = true;
-            }
-        }
-        if !targets.is_empty() {
-            covered |= 1 << seg;
+    // segments of [0, MAX] induced by the labels' end points (any number of labels)
+    let mut cuts: Vec<u32> = vec![0];
+    for ((a, b), _) in &v.trans {
+        cuts.push(*a);
+        if *b < MAX {
+            cuts.push(*b + 1);
         }
     }
-    let full = covered == u.full_mask();
+    cuts.sort_unstable();
+    cuts.dedup();
+    let mut f = StateFacts::default();
+    let mut full = true;
+    for &c in &cuts {
+        let mut first: Option<u32> = None;
+        let mut count = 0usize;
+        for ((a, b), n) in &v.trans {
+            if *a <= c && c <= *b {
+                count += 1;
+                match first {
+                    None => first = Some(*n),
+                    Some(x) if x != *n => f.conflict = true,
+                    _ => {}
+                }
+            }
+        }
+        if count >= 2 {
+            f.overlap = true;
+        }
+        if count == 0 {
+            full = false;
+        }
+    }
     if !full && v.default.is_none() {
         f.incomplete = true;
     }
@@ -434,6 +447,10 @@ pub fn sem_to_spec(t: &mut Tape, sem: &Sem) -> Spec {
         }
         if sem.fin[s] {
             calls.push(Call::Final(labels[s]));
+            // marking a state final is idempotent: now and then the caller says it twice
+            if t.bool_p(40) {
+                calls.push(Call::Final(labels[s]));
+            }
         }
     }
     // shuffle the calls
